@@ -213,10 +213,10 @@ Definition relTk (r1 r2 : bool * token * sqlst) : Prop :=
   (fst (fst r2) = true -> tq (snd (fst r1)) (snd (fst r2))) /\
   (fst (fst r2) = false -> snd (fst r1) = snd (fst r2)).
 
-Hypothesis H_tok : forall s1 s2 c1 c2, srel s1 s2 -> simR relTk (tokenize s1 c1) (tokenize s2 c2).
-Hypothesis H_st : forall s1 s2, srel s1 s2 -> st s1 = st s2.
-Hypothesis H_bump : forall s1 s2 n, srel s1 s2 -> srel (bump_folds s1 n) (bump_folds s2 n).
-Hypothesis H_len : forall s1 s2, srel s1 s2 -> (List.length (input s2) <= List.length (input s1))%nat.
+Variable H_tok : forall s1 s2 c1 c2, srel s1 s2 -> simR relTk (tokenize s1 c1) (tokenize s2 c2).
+Variable H_st : forall s1 s2, srel s1 s2 -> st s1 = st s2.
+Variable H_bump : forall s1 s2 n, srel s1 s2 -> srel (bump_folds s1 n) (bump_folds s2 n).
+Variable H_len : forall s1 s2, srel s1 s2 -> (List.length (input s2) <= List.length (input s1))%nat.
 
 (* ---------- folder states ---------- *)
 
